@@ -310,6 +310,22 @@ def run(repo, rep, tier):
                 if isinstance(par, ast.Attribute) and isinstance(par._parent, ast.Call) and par._parent.func is par:
                     ok = False
                 rep.check('ownership', 'shared configuration is only read or deep-copied: %s' % stmt_text(n._parent if not isinstance(n._parent, ast.stmt) else n._parent)[:60], ok, n, 'shared configuration %s escapes the worker (%s)' % (sp, unparse(par)[:60]))
+    # copy.deepcopy of the configuration must really be deep: a custom copy protocol on AuditConf / Policy may only share immutable values
+    for modname, cname in (('auditconf', 'AuditConf'), ('policy', 'Policy')):
+        cdef = repo.cls(modname, cname)
+        for st in cdef.body:
+            if isinstance(st, ast.FunctionDef) and st.name in ('__deepcopy__', '__copy__', '__reduce__', '__reduce_ex__'):
+                shared = []
+                for n in ast.walk(st):
+                    # any value placed into the copy that is not produced by copy.deepcopy(...)
+                    if isinstance(n, ast.Assign) and isinstance(n.targets[0], (ast.Subscript, ast.Attribute)) and 'dup' in unparse(n.targets[0]) or (isinstance(n, ast.Assign) and isinstance(n.targets[0], ast.Subscript) and '__dict__' in unparse(n.targets[0])):
+                        v = n.value
+                        parts = [v.body, v.orelse] if isinstance(v, ast.IfExp) else [v]
+                        for pv in parts:
+                            if not (isinstance(pv, ast.Call) and unparse(pv.func) == 'copy.deepcopy') and not isinstance(pv, ast.Constant):
+                                shared.append(unparse(n)[:100])
+                rep.check('ownership', '%s.%s shares no mutable state between a configuration and its copy' % (cname, st.name), not shared, st,
+                          '%s.%s hands objects to the copy by reference (%s): workers that deep-copy the configuration still share them (e.g. the Policy error accumulator), so one target\'s policy errors appear on another' % (cname, st.name, shared[0] if shared else ''))
     # values taken over from the shared configuration must be immutable scalars (anything else would alias shared state)
     aci = repo.func('auditconf', 'AuditConf.__init__')
     scalars = set()
